@@ -1005,6 +1005,9 @@ func (it *Interp) mapFind(m *Map, k Value) *mapEntry {
 	if m == nil {
 		return nil
 	}
+	if it.raceActive() {
+		it.raceAccess(m, false, false)
+	}
 	if ck, ok := concreteKey(k); ok {
 		if e, ok := m.idx[ck]; ok {
 			return e
@@ -1036,8 +1039,14 @@ func (it *Interp) mapFind(m *Map, k Value) *mapEntry {
 
 func (it *Interp) mapInsert(m *Map, k, v Value) {
 	if e := it.mapFind(m, k); e != nil {
+		if it.raceActive() {
+			it.raceAccess(m, true, false)
+		}
 		e.v = v
 		return
+	}
+	if it.raceActive() {
+		it.raceAccess(m, true, false)
 	}
 	e := &mapEntry{k: k, v: v}
 	m.entries = append(m.entries, e)
@@ -1049,6 +1058,9 @@ func (it *Interp) mapInsert(m *Map, k, v Value) {
 
 func (it *Interp) mapDelete(m *Map, k Value) {
 	if e := it.mapFind(m, k); e != nil {
+		if it.raceActive() {
+			it.raceAccess(m, true, false)
+		}
 		e.deleted = true
 		if ck, ok := concreteKey(e.k); ok {
 			delete(m.idx, ck)
@@ -1128,6 +1140,9 @@ func (it *Interp) rangeIter(x Value, t types.Type) rangeIter {
 	case *Map:
 		if x == nil {
 			return &mapIter{}
+		}
+		if it.raceActive() {
+			it.raceAccess(x, false, false)
 		}
 		ord := append([]*mapEntry(nil), x.entries...)
 		if it.permuteMaps && len(liveEntries(ord)) > 1 {
@@ -1300,6 +1315,9 @@ func (it *Interp) callBuiltin(caller *Frame, callpos token.Pos, fn *ssa.Builtin,
 		case []Value:
 			return uint64(len(x))
 		case *Map:
+			if x != nil && it.raceActive() {
+				it.raceAccess(x, false, false)
+			}
 			return uint64(x.Len())
 		case *Chan:
 			return uint64(0)
